@@ -44,8 +44,17 @@ Inductive expect :=
 | XDeliverBy (k : token) (from : nat)                  (* the handler of k has been called by now *)
 | XAskOrDeliver (p : nat) (tree : nat) (k : token) (from : nat).  (* ... or the sender was asked for the tree *)
 
+(* an operation of a history: an operation of the model, or "the grace period of the
+   tree store elapses" (the harness shortens treeStorage.timeout and waits it out) *)
+Inductive xop := XOp (o : op) | XElapse.
+Definition xstep (s : ostate) (x : xop) : result :=
+  match x with
+  | XOp o => step code_fixes s o
+  | XElapse => mkR (elapse s) [] Ok
+  end.
+
 Inductive case :=
-| mkCase (ops : list (op * option expect * bool))      (* operation, canary expectation, full observation available *)
+| mkCase (ops : list (xop * option expect * bool))      (* operation, canary expectation, full observation available *)
          (observed : list obs)
 | mkStress (aborted : bool) (free_scans : bool)        (* F26 stress run: runtime abort on concurrent map access / scan seen without the lock *)
 | mkRace (variant : nat) (crashed : bool) (hung : bool) (served : bool)
@@ -122,11 +131,11 @@ Definition obs_ok (r : result) (full : bool) (o : obs) : bool :=
     forallb (fun ib => Bool.eqb (mem_nat (fst ib) (removal s)) (snd ib)) (ob_removal o) &&
     ob_reply_ok o)).
 
-Fixpoint replay (s : ostate) (ops : list (op * option expect * bool)) (os : list obs) : bool :=
+Fixpoint replay (s : ostate) (ops : list (xop * option expect * bool)) (os : list obs) : bool :=
   match ops, os with
   | [], [] => true
   | (o, _, full) :: ro, b :: rb =>
-      let r := step code_fixes s o in
+      let r := xstep s o in
       obs_ok r full b && replay (r_state r) ro rb
   | _, _ => false
   end.
@@ -187,7 +196,7 @@ Definition is_run_expect (x : expect) : bool := match x with XSend _ _ => false 
    only (from the first operation that carries an expectation): a delivery made during
    the hostile part of the history never satisfies a canary. A case whose observation
    list does not match its operation list satisfies nothing. *)
-Fixpoint canaries_ok (runs : bool) (ops : list (op * option expect * bool)) (os seen : list obs) : bool :=
+Fixpoint canaries_ok (runs : bool) (ops : list (xop * option expect * bool)) (os seen : list obs) : bool :=
   match ops, os with
   | [], [] => true
   | (_, x, _) :: ro, o :: rb =>
